@@ -16,6 +16,7 @@ from .model import AnalysisError, calls_in, call_name, norm, walk_no_nested
 class Loop(object):
   pass
 
+_WLEN_CODE = {}
 def find_loop (repo, func):
   g = q.cfg_of(func)
   fn = func.node
@@ -34,14 +35,21 @@ def find_loop (repo, func):
       if not offs or len(offs) != len(names): continue
       off = n.value.args[2] if len(n.value.args) > 2 else None
       b0, k0 = q.linear(off, None) if off is not None else (None, 0)
-      for (o, sz), nm in zip(offs, names):
+      import re as _re
+      codes = []
+      for cnt_, ch_ in _re.findall(r'(\d*)([a-zA-Z?])', fmt.lstrip('@=<>!')):
+        codes += [ch_] if ch_ in 'sp' else [ch_] * (int(cnt_) if cnt_ else 1)
+      codes = [c_ for c_ in codes if c_ != 'x']
+      for i_, ((o, sz), nm) in enumerate(zip(offs, names)):
         if o + k0 == 2 and sz == 2 and isinstance(nm, ast.Name):
           cand.append((nm.id, ('unpack', n.value.args[1], b0), n))
+          _WLEN_CODE[id(n)] = ((fmt[:1] if fmt[:1] in '@=<>!' else '@'), codes[i_] if i_ < len(codes) else '?')
   # the same variable computed by the same expression in several branches (an inlined helper's early returns duplicate code) is one candidate
   if len(cand) > 1 and len(set((c_[0], norm(c_[2].value) if isinstance(c_[2], ast.Assign) else id(c_[2])) for c_ in cand)) == 1: cand = cand[:1]
   if len(cand) != 1:
     raise AnalysisError("%s: cannot identify the wire-length variable uniquely (%d candidates)" % (func.qual, len(cand)))
   L = Loop(); L.func = func; L.g = g
+  L.wlen_code = _WLEN_CODE.get(id(cand[0][2]))      # (byte order, struct code) when the length is read with struct.unpack_from
   if cand[0][1][0] == 'unpack':
     L.wlen, (_, buf, b2), L.wlen_stmt = cand[0]
     L.buf = norm(buf)
